@@ -50,7 +50,8 @@ type c08Hist struct {
 }
 
 // "a" and "A" differ only in letter case: two tag names, two rule sets
-var c08Tags = []string{"valid", "a", "b", "A"}
+// ... and two names longer than 16 bytes that share their first 18
+var c08Tags = []string{"valid", "a", "b", "A", "wechatMiniProgramV1", "wechatMiniProgramV2"}
 
 // c08Build builds the history; it depends on (seed, tier) only, so every child and the parent build
 // the very same types, values and calls.
@@ -535,7 +536,7 @@ func parentC08(p *core.ParentCtx) *core.Result {
 			}
 			res.Count("calls_disagreeing_with_reference_for_requested_tag")
 			matched := false
-			for _, other := range []string{"valid", "a", "b", "A", "xvalid", "xa", "xb", "xA"} {
+			for _, other := range []string{"valid", "a", "b", "A", "wechatMiniProgramV1", "wechatMiniProgramV2", "xvalid", "xa", "xb", "xA"} {
 				if other != call.Tag && agrees(other) {
 					matched = true
 					res.Violate("C08|judged-by-other-tag|all-configurations", fmt.Sprintf("call #%d %s returned %q even with a cache that never remembers anything: that is what the rules under tag %q demand, not those under the requested tag %q (%s); type %s",
